@@ -396,6 +396,8 @@ class Interp:
         if node is None:
             handling = getattr(self, '_handling', [])
             return handling[-1] if handling else Opaque('reraise')
+        if isinstance(node, ast.Call) and isinstance(node.func, ast.Attribute) and node.func.attr == 'with_traceback':
+            return self.ev_exc(node.func.value)
         if isinstance(node, ast.Call):
             ref = self.a.res.resolve(node.func, self.m)
             if ref:
@@ -497,6 +499,25 @@ class Interp:
             if isinstance(n.value, ast.Name) and n.value.id in ('self', 'cls') \
                     and n.value.id not in self.env and self.self_class:
                 return self.a.folder.fold(n, self.m, None, self.self_class)
+            # module.NAME: a module-level object of the package (one per world)
+            root_ = n
+            while isinstance(root_, ast.Attribute):
+                root_ = root_.value
+            if isinstance(root_, ast.Name) and root_.id not in self.env:
+                gref_ = self.a.res.resolve(n, self.m)
+                if gref_ and gref_.startswith('pkg:') and gref_.count(':') == 2 and '.' not in gref_.split(':', 2)[2]:
+                    if gref_ in self.world.globals:
+                        return self.world.globals[gref_]
+                    gm_, gnode_ = self.a.res.lookup(gref_)
+                    if gnode_ is not None and not isinstance(gnode_, (ast.FunctionDef, ast.ClassDef)):
+                        try:
+                            gval_ = self.a.folder.fold(n, self.m)
+                        except Unfoldable:
+                            gval_ = None
+                        if isinstance(gval_, (dict, list, set)):
+                            self.world.globals[gref_] = gval_
+                            self._module_init(gref_, gval_)
+                            return gval_
             try:
                 base = self.ev(n.value)
             except Unmodelled:
@@ -719,6 +740,8 @@ class Interp:
                     and not fn.value.args and 'super' not in self.env:
                 return self._super_call(fn.attr, args, kwargs)
             recv = self._safe_ev(fn.value)
+            if fn.attr == 'with_traceback' and isinstance(recv, (Ref, Rec)):
+                return recv
             if isinstance(recv, PyModel) and hasattr(recv, fn.attr):
                 return getattr(recv, fn.attr)(*args, **kwargs)
             if isinstance(recv, Opaque) and recv.label not in ('aug',) and not isinstance(fn.value, ast.Name):
@@ -810,6 +833,13 @@ class Interp:
             done, res = self._pure_call(ref[4:], args, kwargs)
             if done:
                 return res
+        if ref and ref.startswith('builtin:') and ref not in self.call_models and isinstance(getattr(_builtins, ref[8:], None), type) \
+                and issubclass(getattr(_builtins, ref[8:]), BaseException):
+            return Ref(ref)         # a new exception object: represented by its class
+        if ref == 'ext:sys.exc_info' and ref not in self.call_models:
+            handling = getattr(self, '_handling', [])
+            cur = handling[-1] if handling else None
+            return (self._type_of(cur) if isinstance(cur, (Ref, Rec)) else None, cur, Opaque('traceback') if cur is not None else None)
         if ref == 'builtin:type' and len(args) == 1 and 'builtin:type' not in self.call_models:
             return self._type_of(args[0])
         if ref and ref.startswith('builtin:') and ref[8:] in _DUNDER_OF and len(args) >= 1 and isinstance(args[0], Rec) \
@@ -1186,6 +1216,9 @@ class Interp:
     def _type_of(self, v):
         if isinstance(v, Rec) and isinstance(v.f.get('cls'), str):
             return Ref(v.f['cls'])
+        if isinstance(v, Ref) and (v.ref.startswith('builtin:') and isinstance(getattr(_builtins, v.ref[8:], None), type)
+                                   and issubclass(getattr(_builtins, v.ref[8:]), BaseException) or self._is_pkg_class(v.ref)):
+            return v        # an exception class stands for its instance: its type is the class itself
         if isinstance(v, (Rec, Opaque, Ref, PyModel, LambdaVal, BoundMethod)):
             raise Unmodelled(f'type() of {v!r}')
         return Ref('builtin:NoneType' if v is None else f'builtin:{type(v).__name__}')
